@@ -423,6 +423,7 @@ static void run_doc(vf_doc *d, const char *label, int md)
     D = d; LABEL = label; MDEPTH = md;
     vf_count(CT_DOCS, 1);
     vf_live_alloc(&L, d->bytes, d->len, md, 0);
+    vf_stack_paint();
     bool ok = P_C03 ? traverse_c03() : P_C05 ? traverse_c05() : traverse_c10();
     if (!ok) {
         /* determinism guard */
@@ -430,8 +431,17 @@ static void run_doc(vf_doc *d, const char *label, int md)
         snprintf(w1, sizeof w1, "%s", why);
         vf_live_free(&L);
         vf_live_alloc(&L, d->bytes, d->len, md, 0);
+        vf_stack_paint();
         bool ok2 = P_C03 ? traverse_c03() : P_C05 ? traverse_c05() : traverse_c10();
-        if (ok2 || strcmp(w1, why)) vf_die("decode violation did not reproduce (%s | %s)", w1, why);
+        if (ok2) vf_die("decode violation did not reproduce (%s)", w1);
+        if (strcmp(w1, why)) {
+            /* fails on every run, but not with the same bytes: the library's output depends on something other than its inputs
+             * (every object and buffer here is filled with fixed bytes before use); reported under one stable description */
+            char t[300];
+            snprintf(t, sizeof t, "with identical inputs the traversal fails differently from run to run (first: %.200s)", w1);
+            snprintf(why, sizeof why, "%s", t);
+            snprintf(sigk, sizeof sigk, "unstable-failure");
+        }
         char sig[160];
         snprintf(sig, sizeof sig, "decode:%s:%s", P_C03 ? "traverse" : P_C05 ? "write" : "transcribe", sigk);
         vf_str b = { 0 };
